@@ -124,6 +124,21 @@ pub fn chunks(pat: &str, n: usize, r: &mut StdRng) -> Vec<usize> {
         }
         return v;
     }
+    if let Some(k) = pat.strip_prefix("first") {
+        // one chunk of exactly k bytes, then the rest
+        let k: usize = k.parse().unwrap_or(1).min(n);
+        v.push(k);
+        if n > k {
+            v.push(n - k);
+        }
+        return v;
+    }
+    if let Some(k) = pat.strip_prefix("split") {
+        let k: usize = k.parse().unwrap_or(1).min(n);
+        v.push(k);
+        v.push(n - k);
+        return v;
+    }
     // random, including empty chunks
     while left > 0 {
         let c = match r.gen_range(0..10) {
